@@ -24,7 +24,7 @@ RULE = ('prefixes from the name generator; forwarder replies {200 with/without b
 
 C = lambda s: rc.comp(8, s)   # noqa
 REPLIES = ['200', '200-nobody', '400', '403-nobody', '404', '500-nobody', 'random-code', 'nack', 'silence', 'garbage',
-           'empty-content', 'no-content', 'wrong-outer', 'bad-signature', '200-extra-fields', '200-unknown-fields-inside']
+           'empty-content', 'no-content', 'wrong-outer', 'bad-signature', '200-extra-fields', '200-unknown-fields-inside', 'empty-signature', 'absent-signature-value']
 
 
 def control_response(status, text=b'OK', body=None, unknown=None):
@@ -172,7 +172,15 @@ class Forwarder:
         elif kind == 'bad-signature':
             content = control_response(200, b'OK', cp_body(prefix))
             sign = lambda b: bytes(32)   # noqa
+        elif kind in ('empty-signature', 'absent-signature-value'):
+            # status 200, SignatureInfo says DigestSha256, but the SignatureValue is empty / not there at all: nothing to validate against
+            content = control_response(200, b'OK', cp_body(prefix))
+            sign = lambda b: b''   # noqa
         d = rc.make_data(name, content=content, content_type=ctype, freshness=1000, sig_type=0, sign=sign)
+        if kind == 'absent-signature-value':
+            b0, vs0, ve0 = rc.outer(d, 6)
+            kids = rc.children(b0, vs0, ve0)
+            d = rc.enc_tlv(6, b0[vs0:kids[-1][1]])
         self.face.deliver_task(d)
 
 
@@ -181,7 +189,7 @@ def expected_result(fe, kind, strict_app_validator=False):
         return False        # the legacy front-end validates command responses with the application's data validator: it refuses
     if kind in ('200', '200-nobody', '200-extra-fields', '200-unknown-fields-inside'):
         return True
-    if kind == 'bad-signature':
+    if kind in ('bad-signature', 'empty-signature', 'absent-signature-value'):
         return fe == 'v2'       # v2 commands use pass_all; the legacy front-end validates the digest signature
     return False
 
